@@ -258,7 +258,7 @@ namespace vtbb_detail {
         VtbbStats &S = vtbb_stats();
         std::size_t N = length(range), maxc = (std::size_t) vtbb_max_cells();
         std::vector<std::size_t> cut;
-        if (N <= (std::size_t) range.grainsize()) { ++S.reduce_body_runs; return body(range, identity); }     // not divisible: one body, no join
+        if (N <= (std::size_t) range.grainsize()) { ++S.reduce_body_runs; return Value(body(range, identity)); }     // not divisible: one body, no join
         if (N <= maxc) { for (std::size_t i = 0; i <= N; ++i) cut.push_back(i); }
         else {
             std::size_t w = (N + maxc - 1) / maxc;
@@ -328,7 +328,7 @@ Value parallel_reduce(const Range &range, const Value &identity, const Func &bod
     ++S.reduce_calls;
     std::size_t N = length(range);
     if (N == 0) return identity;
-    if (!vx::explorer().active || N <= (std::size_t) range.grainsize()) { ++S.reduce_body_runs; return body(range, identity); }   // (a range no longer than its grain size is not divisible)
+    if (!vx::explorer().active || N <= (std::size_t) range.grainsize()) { ++S.reduce_body_runs; return Value(body(range, identity)); }   // (a range no longer than its grain size is not divisible)
     if (vtbb_reduce_mode() == 1) return vtbb_detail::reduce_direct(range, identity, body, join);
     // cells: the finest leaves considered. Up to vtbb_max_cells() single-index cells; longer ranges use a block grid
     // whose offset is an ORDER choice (all schedules whose leaf boundaries lie on the grid are enumerated).
@@ -361,9 +361,9 @@ Value parallel_reduce(const Range &range, const Value &identity, const Func &bod
         // default first: one invocation covering everything from the identity (this is what a one-worker run does)
         for (std::size_t p = i; p < j; ++p) for (const Value &x : E[i][p]) {
             ++S.reduce_body_runs;
-            add_distinct(E[i][j], body(subrange(range, cut[p], cut[j]), x));
+            add_distinct(E[i][j], Value(body(subrange(range, cut[p], cut[j]), x)));     // (results are converted to the identity's type, as oneTBB stores them)
         }
-        for (std::size_t m = i + 1; m < j; ++m) for (const Value &x : E[i][m]) for (const Value &y : E[m][j]) { ++S.reduce_joins; add_distinct(E[i][j], join(x, y)); }
+        for (std::size_t m = i + 1; m < j; ++m) for (const Value &x : E[i][m]) for (const Value &y : E[m][j]) { ++S.reduce_joins; add_distinct(E[i][j], Value(join(x, y))); }
     }
     // purity probe: the same invocation repeated in the middle of the enumeration (it is the first one of E[0][C]'s loop, p = 0)
     // and again at the very end must return what it returned at the start; otherwise bodies share state and the
@@ -382,7 +382,7 @@ Value parallel_reduce(const Range &range, const Value &identity, const Func &bod
     using namespace vtbb_detail;
     std::size_t N = length(range);
     if (N == 0) return identity;
-    if (N <= (std::size_t) range.grainsize()) return body(range, identity);     // not divisible
+    if (N <= (std::size_t) range.grainsize()) return Value(body(range, identity));     // not divisible
     std::vector<std::unique_ptr<Value>> part(N);
     std::vector<std::thread> th;
     th.reserve(N);
